@@ -39,12 +39,47 @@ def run(ctx):
         n = f"{SL}::consume_{kind}_internal"
         if ctx.anchor(n):
             b = ctx.body(n)
-            upd = field_update_blocks(b, fld) + field_update_blocks(b, "xrd_balance")
-            check_guarded(ctx, f"consume_{kind}_internal|commit", b, upd, [
-                G_try(re.escape(SL) + f"::check_{kind}_cost_unit_limit$"),
-                G_bool_call(r"PartialOrd(<.*>)?(>)?::lt$", False)], "cost-unit commit / balance deduction", min_targets=2)
+            commit = field_update_blocks(b, fld)
+            local_ded = field_update_blocks(b, "xrd_balance")
+            # the balance deduction may live in a helper method of the reserve that this function calls with `?`
+            helpers = {}
+            for bb, t in b.calls(re.escape(SL) + r"::\w+$"):
+                callee = t["f"]
+                if callee in F.fns and callee != n and not callee.endswith(f"::check_{kind}_cost_unit_limit"):
+                    hb = ctx.body(callee)
+                    if field_update_blocks(hb, "xrd_balance"):
+                        helpers[callee] = (bb, t, hb)
+            lim = G_try(re.escape(SL) + f"::check_{kind}_cost_unit_limit$")
+            if local_ded:
+                check_guarded(ctx, f"consume_{kind}_internal|commit", b, commit + local_ded, [lim, G_bool_call(r"PartialOrd(<.*>)?(>)?::lt$", False)],
+                              "cost-unit commit / balance deduction", min_targets=2)
+            elif helpers:
+                for callee, (hbb, ht, hb) in sorted(helpers.items()):
+                    hs = callee.rsplit("::", 1)[1]
+                    check_guarded(ctx, f"consume_{kind}_internal|commit", b, commit, [lim, G_try(re.escape(callee) + "$")],
+                                  f"cost-unit commit (deduction in helper {hs})", min_targets=1)
+                    check_guarded(ctx, f"consume_{kind}_internal|helper-call-after-limit-check", b, [hbb], [lim], f"call of {hs}")
+                    check_guarded(ctx, f"consume_{kind}_internal|{hs}|deduction-behind-balance-test", hb, field_update_blocks(hb, "xrd_balance"),
+                                  [G_bool_call(r"PartialOrd(<.*>)?(>)?::lt$", False)], f"balance deduction in {hs}")
+            else:
+                ctx.ob(f"consume_{kind}_internal|commit", False, "no deduction of xrd_balance found in consume_*_internal or a reserve helper it calls", b.loc())
             for bb, t in b.calls(re.escape(SL) + f"::check_{kind}_cost_unit_limit$"):
                 ctx.ob(f"consume_{kind}_internal|same-operand", origin_names(b, t["args"][1]) == {"param:2"}, f"limit check operand: {origin_names(b, t['args'][1])}", b.loc(bb))
+            # closed world of unit prices: the deduction is priced with the tip-inclusive cached price of this cost category and no other price
+            prices = set()
+            bodies = [b] + [hb for _, _, hb in helpers.values()]
+            for x in bodies:
+                for fr in x.fn.fr:
+                    if fr.endswith("cost_unit_price"):
+                        prices.add(fr.rsplit(".", 1)[1])
+                for bb, t in x.calls(re.escape(SL) + r"::\w*cost_unit_price$"):
+                    acc = t["f"]
+                    got = {fr.rsplit(".", 1)[1] for fr in (F.fns[acc].fr if acc in F.fns else []) if fr.endswith("cost_unit_price")}
+                    prices |= {g + " (via " + acc.rsplit("::", 1)[1] + "())" for g in got} or {acc.rsplit("::", 1)[1] + "()"}
+            want = {f"effective_{kind}_cost_unit_price"}
+            ctx.ob(f"consume_{kind}_internal|priced-with-the-effective-{kind}-price-only", prices == want,
+                   f"unit prices consulted when deducting {kind} cost units: {sorted(prices)} (finalize() and the commit-time assertion charge the tip on these units, "
+                   f"so the deduction must use the tip-inclusive {sorted(want)[0]})", b.loc())
         n = f"{SL}::check_{kind}_cost_unit_limit"
         if ctx.anchor(n):
             b = ctx.body(n)
@@ -57,6 +92,28 @@ def run(ctx):
                 dn = origin_names(b, b.term(sb)["o"], deep=True)
                 ok = ok and any("checked_add" in x for x in dn) and "param:2" in dn
             ctx.ob(f"check_{kind}_cost_unit_limit|rejects-above-limit", ok, f"limit comparison at bb{gs}: exceeding arm doomed, depends on checked_add(committed, new)", b.loc())
+    ctx.rule("argument origin in SystemLoanFeeReserve::new: effective_{execution,finalization}_cost_unit_price = costing_parameters.<kind>_cost_unit_price x tip.fee_multiplier()")
+    n = SL + "::new"
+    if ctx.anchor(n):
+        b = ctx.body(n)
+        found = {}
+        for i in range(b.n):
+            for st in b.stmts(i):
+                if st["k"] == "=" and st["rv"]["k"] == "agg" and (st["rv"].get("adt") or "").endswith("::SystemLoanFeeReserve"):
+                    for fname, op in zip(st["rv"].get("fields", []), st["rv"]["ops"]):
+                        if fname.startswith("effective_"):
+                            found[fname] = (i, op)
+        for kind in ("execution", "finalization"):
+            fname = f"effective_{kind}_cost_unit_price"
+            if fname not in found:
+                ctx.ob(f"new|{fname}", False, "field initialiser not found", b.loc())
+                continue
+            i, op = found[fname]
+            ats = b.origins(op, deep=True)
+            base = any(a.proj and a.proj[-1] == f".{kind}_cost_unit_price" for a in ats)
+            other = [a.proj[-1] for a in ats if a.proj and a.proj[-1].endswith("_cost_unit_price") and a.proj[-1] != f".{kind}_cost_unit_price"]
+            mult = any(a.kind == "call" and a.what.endswith("::fee_multiplier") for a in ats)
+            ctx.ob(f"new|{fname}", base and mult and not other, f"{fname} derives from .{kind}_cost_unit_price={base}, tip.fee_multiplier()={mult}, other prices={other}", b.loc(i))
     n = SL + "::consume_royalty_internal"
     if ctx.anchor(n):
         b = ctx.body(n)
